@@ -126,3 +126,41 @@ Proof.
   cbv zeta. split; [vm_compute; reflexivity|]. split; [|repeat split; vm_compute; reflexivity].
   vm_compute. repeat (constructor; [simpl; intuition discriminate|]). constructor.
 Qed.
+
+(* TIED TO THE SOURCE TEXT.  Generated/ErrContSrc.v is written by tools/go2coq from
+   error_containers.go (NewErrorContainer, AddError, AddErrorList, Errors; a
+   shallow translation over Base/GoSem.v) and regenerated from the repository
+   under test on every run (check.py SOURCE_TIES).  The *ErrorContainer receiver
+   is state passed in and out (None = the nil pointer); an error value is nil or
+   an opaque non-nil error; slice capacity is dropped.  For every container,
+   every error value, every list and every history - no hypothesis - the
+   translated source IS the model, and never panics. *)
+From Tab Require Import Base.GoSem Generated.ErrContSrc Proofs.ErrContSrcTie.
+
+Theorem c11_source_is_model :
+  src_NewErrorContainer = Ok (create MNew)
+  /\ (forall c e, src_AddError c e = Ok (add_error c e))
+  /\ (forall c el, src_AddErrorList c el = Ok (add_error_list c el))
+  /\ (forall c, src_Errors c = Ok (errors c))
+  /\ (forall m ops, src_cont_run m ops = Ok (cont_run m ops)).
+Proof. exact errcont_source_is_model. Qed.
+Print Assumptions c11_source_is_model.
+
+(* c11_container for the TRANSLATED SOURCE: after every history run on the
+   translated functions, from every way of making the container, the translated
+   Errors() is nil exactly when no non-nil error was accepted, and otherwise a
+   non-empty list without nil entries that is the accepted errors in order (none
+   lost, none duplicated, no nil stored, order kept) *)
+Theorem c11_source_container : forall m ops, exists c,
+  src_cont_run m ops = Ok c
+  /\ (src_Errors c = Ok None <-> cont_expected m ops = [])
+  /\ (forall l, src_Errors c = Ok (Some l) -> l <> [] /\ ~ In None l /\ l = map Some (cont_expected m ops)).
+Proof. exact src_container_log. Qed.
+Print Assumptions c11_source_container.
+
+(* c11_container_nil for the translated source: a nil receiver is a no-op *)
+Theorem c11_source_container_nil : forall ops,
+  src_cont_run MNil ops = Ok None /\ src_Errors None = Ok None
+  /\ (forall e, src_AddError None e = Ok None) /\ (forall el, src_AddErrorList None el = Ok None).
+Proof. exact src_container_nil. Qed.
+Print Assumptions c11_source_container_nil.
